@@ -206,7 +206,9 @@ fn collect(job: &dyn Job, completed: bool, panic_msg: Option<String>) -> Outcome
         out.violations.append(&mut s.violations);
         out.others.append(&mut s.others);
         out.stats = s.stats.clone();
-        out.probes = std::mem::take(&mut s.probes);
+        for (k, v) in std::mem::take(&mut s.probes) {
+            *out.probes.entry(k).or_insert(0) += v;
+        }
         out.faults = std::mem::take(&mut s.faults);
         out.trace = std::mem::take(&mut s.trace);
         out.trace_hash = s.trace_hash;
